@@ -75,10 +75,17 @@ def mirror_lines(sim):
                             loads_all = o.split(" ")[4] == "meta:-"
             else:
                 loads_all = sim.boot_meta_all.get(int(k))
+            i0 = 4 if w[0] == "fire" else 3
             if calm and loads_all is not None:
-                i0 = 4 if w[0] == "fire" else 3
                 closed = [node_of[o.split(" ")[1]] for o in obs if o.startswith("bcClose")]
                 out.append(("mon-mirror %d %s %s %s %s %s" % (1 if loads_all else 0, w[i0], w[i0 + 1], CC.lst(sorted(closed)), six(prev), six(st["dump"])), st["line"]))
+            elif not calm and len(w) > i0 + 1:
+                # a perturbed merge step (closing a dropped broker's client failed requests in flight, whose failure
+                # resets the cache): when the LAST thing the step did was to fire the load's Deferred with True (nothing
+                # ran after the merge), the cache still equals the response for every topic it covers and for its brokers
+                idx = [i for i, o in enumerate(obs) if o.startswith(("result", "mk", "bcNew"))]
+                if idx and obs[idx[-1]].startswith("result") and obs[idx[-1]].endswith("ok True"):
+                    out.append(("mon-covered %s %s %s" % (w[i0], w[i0 + 1], six(st["dump"])), st["line"]))
         if st["dump"] is not None:
             prev = st["dump"]
     return out
@@ -165,13 +172,25 @@ def evaluate(ctx_model, scn, sim, focus, want_mon=("c07",)):
     lines = sim.model_lines()
     tl = sim.trace_lines() + [MON[m] for m in want_mon]
     extra = []
+    extra_mon = "c08"
     if "c08" in focus or focus == "all":
         extra = mirror_lines(sim) + allinvalid_lines(sim) + kept_lines(sim)
+    elif focus == "c07":
+        # C07 routes by "the current metadata": a failed send must leave none behind (the Lean predicate
+        # Monitor.C08.allInvalid, proved of the model: C08_failed_send_invalidates) - otherwise the next request of the
+        # group/partition goes to the broker that just failed without asking anyone
+        extra = allinvalid_lines(sim)
+        extra_mon = "c07"
     routes = route_lines(sim) if focus in ("c07", "all") else []
     # the monitors on the MODEL's own trace of the same events (the soundness statements
     # Cxx_model_traces_satisfy_monitor, proved for C11, open for C07/C20, are evaluated on every scenario)
     mmon = [m for m in want_mon if m in ("c07", "c11", "c20")]
-    got = ctx_model("client", lines + tl + [e[0] for e in extra] + [r[0] for r in routes] + ["mon-%s-model" % m for m in mmon])
+    # the mon-*-model requests go right after the model's own events: the observed trace starts with a `cfg` line again,
+    # which resets the driver (and with it the model trace `mtrace` that these requests evaluate)
+    mlines = ["mon-%s-model" % m for m in mmon]
+    got_all = ctx_model("client", lines + mlines + tl + [e[0] for e in extra] + [r[0] for r in routes])
+    mm = got_all[len(lines):len(lines) + len(mlines)]
+    got = got_all[:len(lines)] + got_all[len(lines) + len(mlines):]
     out = {"dis": None, "mon": []}
     if sim.stray:
         out["dis"] = {"what": "observations outside any step (harness)", "impl": sim.stray[:5]}
@@ -190,12 +209,11 @@ def evaluate(ctx_model, scn, sim, focus, want_mon=("c07",)):
     ex = got[len(lines) + len(tl):]
     for (l, stepline), v in zip(extra, ex):
         if v != ["ok"]:
-            out["mon"].append({"monitor": "c08", "messages": ["%s -> %s at step %s" % (l.split(" ")[0], v, stepline)]})
+            out["mon"].append({"monitor": extra_mon, "messages": ["%s -> %s at step %s" % (l.split(" ")[0], v, stepline)]})
     rt = got[len(lines) + len(tl) + len(extra):]
     for (l, want, stepline), v in zip(routes, rt):
         if v != [want]:
             out["mon"].append({"monitor": "c07", "messages": ["the requests of a send resolved from the cache are not what the kernel route computes: kernel %s, client %s at step %s" % (v, want, stepline)]})
-    mm = got[len(lines) + len(tl) + len(extra) + len(routes):]
     wellformed = not any(x == "bad-op" or (isinstance(x, str) and x.startswith("bad-op")) for g in got[:len(lines)] for x in g)
     if out["dis"] is None and wellformed:
         for m, v in zip(mmon, mm):
@@ -203,6 +221,8 @@ def evaluate(ctx_model, scn, sim, focus, want_mon=("c07",)):
                 msgs = v[0][5:].split(" ; ") if v and v[0].startswith("fail ") else [repr(v)]
                 out["mon"].append({"monitor": m, "messages": ["the MODEL's own trace is rejected by the %s monitor: %s" % (m, x) for x in msgs]})
     out["nmirror"] = len(extra)
+    out["ncovered"] = sum(1 for e in extra if e[0].startswith("mon-covered"))
+    out["nallinvalid"] = sum(1 for e in extra if e[0].startswith("mon-allinvalid"))
     out["nroute"] = len(routes)
     return out
 
@@ -271,6 +291,8 @@ def run_batch(model, seed, n, focus, want_mon, prefix_scn=None, timeout_s=None):
         for k, v in f.items():
             out["hist"][k] = out["hist"].get(k, 0) + v
         out["nmirror"] += ev["nmirror"]
+        out["ncovered"] = out.get("ncovered", 0) + ev.get("ncovered", 0)
+        out["nallinvalid"] = out.get("nallinvalid", 0) + ev.get("nallinvalid", 0)
         out["nroute"] += ev.get("nroute", 0)
         if nontrivial(focus, f):
             out["distinct"].append(json.dumps(scn["cmds"], sort_keys=True))
@@ -342,6 +364,8 @@ def merge(res, ctx, outs, focus, pid):
             res.sample(s, limit=3)
         res.extra["mirror_checks"] = res.extra.get("mirror_checks", 0) + o["nmirror"]
         res.extra["route_kernel_checks"] = res.extra.get("route_kernel_checks", 0) + o.get("nroute", 0)
+        res.extra["covered_mirror_checks"] = res.extra.get("covered_mirror_checks", 0) + o.get("ncovered", 0)
+        res.extra["allinvalid_checks"] = res.extra.get("allinvalid_checks", 0) + o.get("nallinvalid", 0)
         for e in o["errors"]:
             res.disagreements.append({"component": "client-net", "what": "harness/scenario crashed", "trace": e})
         for d in o["dis"]:
